@@ -100,7 +100,7 @@ class State:
     def new_ref(self, owned=True, kind="obj"):
         a = self.heap["alloc"]
         self.heap["alloc"] = a + 1
-        if "g:owner" in self.heap:
+        if "g:owner" in self.heap and kind != "env":
             # ghost ownership tag: a freshly allocated object belongs to nobody (contexts tag their containers later)
             self.heap["g:owner"] = z3.Store(self.heap["g:owner"], a, con("own:nobody"))
         if owned:
